@@ -321,9 +321,9 @@ theorem G_step (t : Spec.St) (a : ASt) (z : Zip) (op : Op) (g : G t a z) (hed : 
       rw [hstep]; exact ⟨z.push n, G_ins t a _ z f' n c g hext hsn hn hc hns hout hcur hfr⟩
 
 /-- emitter calls only -/
-def CallsOnly (ops : List Op) : Prop := ∀ op ∈ ops, isEdit op = false ∧ ∀ l y b, op ≠ .cpool l y b
+def CallsOnly0 (ops : List Op) : Prop := ∀ op ∈ ops, isEdit op = false ∧ ∀ l y b, op ≠ .cpool l y b
 
-theorem G_run : ∀ (ops : List Op) (t : Spec.St) (a : ASt) (z : Zip), G t a z → CallsOnly ops →
+theorem G_run0 : ∀ (ops : List Op) (t : Spec.St) (a : ASt) (z : Zip), G t a z → CallsOnly0 ops →
     ∃ z', G (Spec.run t ops) (arun a ops) z' := by
   intro ops
   induction ops with
